@@ -47,8 +47,16 @@ func fmtArg(fr *frame, a value) any {
 	switch v := it.v.(type) {
 	case bool, int, int8, int16, int32, int64, uint, uint8, uint16, uint32, uint64, uintptr, float32, float64, string:
 		return v
-	case *symv, symstr:
-		fr.i.ex.noteAssumption("formatting stub: symbolic values rendered as a placeholder by fmt")
+	case *symv:
+		if v.sort == sBV {
+			if c, ok := fr.i.ex.tryConcretizeSmall(fr, v, true); ok {
+				return c
+			}
+		}
+		fr.i.ex.noteAssumption("formatting stub: symbolic values rendered as an opaque text by fmt")
+		return symPlaceholder
+	case symstr:
+		fr.i.ex.noteAssumption("formatting stub: symbolic values rendered as an opaque text by fmt")
 		return symPlaceholder
 	case []value:
 		allBytes := len(v) > 0
@@ -139,11 +147,18 @@ func registerFmt() {
 		}
 		return fmt.Sprintf(f, fmtArgs(fr, rest)...)
 	}
-	externals["fmt.Sprintf"] = func(fr *frame, args []value) value { return sprintf(fr, args[0], args[1]) }
-	externals["fmt.Sprint"] = func(fr *frame, args []value) value { return fmt.Sprint(fmtArgs(fr, args[0])...) }
-	externals["fmt.Sprintln"] = func(fr *frame, args []value) value { return fmt.Sprintln(fmtArgs(fr, args[0])...) }
+	// a text built from symbolic values is opaque: usable as a message, not in computations
+	opaque := func(s string) value {
+		if strings.Contains(s, symPlaceholder) {
+			return poisonStr()
+		}
+		return s
+	}
+	externals["fmt.Sprintf"] = func(fr *frame, args []value) value { return opaque(sprintf(fr, args[0], args[1])) }
+	externals["fmt.Sprint"] = func(fr *frame, args []value) value { return opaque(fmt.Sprint(fmtArgs(fr, args[0])...)) }
+	externals["fmt.Sprintln"] = func(fr *frame, args []value) value { return opaque(fmt.Sprintln(fmtArgs(fr, args[0])...)) }
 	externals["fmt.Errorf"] = func(fr *frame, args []value) value {
-		msg := sprintf(fr, args[0], args[1])
+		msg := opaque(sprintf(fr, args[0], args[1]))
 		pkg := fr.i.prog.ImportedPackage("errors")
 		return call(fr.i, fr, token.NoPos, pkg.Func("New"), []value{msg})
 	}
